@@ -703,7 +703,7 @@ def _bool_dtype():
 
 def check_group_indexing(run, tree):
     hooks = core_hooks()
-    idx_cases = [("integer", 2, 2), ("slice", slice(1, 3, None), slice_key((4,), slice(1, 3, None))),
+    idx_cases = [("integer", 2, 2), ("negative integer (a row counted from the end)", -1, -1), ("negative integer (the first row, counted from the end)", -4, -4), ("slice", slice(1, 3, None), slice_key((4,), slice(1, 3, None))),
                  ("reversing slice", slice(None, None, -1), slice_key((4,), slice(None, None, -1))),
                  ("negative-step slice from an offset", slice(-2, None, -1), slice_key((4,), slice(-2, None, -1))),
                  ("strided slice", slice(None, None, 2), slice_key((4,), slice(None, None, 2))),
@@ -733,6 +733,15 @@ def check_group_indexing(run, tree):
                     want = ("idx", src, key)
                     wunit = {"a": "m", "b": "s"}[k]
                 got = member_origin(tree, hooks, m)
+                if isinstance(key, int) and not isinstance(key, bool):
+                    # row -1 and row nrows-1 are the same row (the group has 4 rows): compared modulo the number of rows
+                    def _row(o):
+                        if isinstance(o, dict):
+                            return {c_: _row(x) for c_, x in o.items()}
+                        if isinstance(o, tuple) and len(o) == 3 and o[0] == "idx" and isinstance(o[2], int) and not isinstance(o[2], bool) and -4 <= o[2] < 4:
+                            return (o[0], o[1], o[2] % 4)
+                        return o
+                    got, want = _row(got), _row(want)
                 if key is not None and got != want:
                     problems.append("%s -> %s (required %s)" % (k, got, want))
                 if key is None:
